@@ -553,6 +553,8 @@ class MixedEdgeGraph:
         networkx.Graph.copy: for full copy docstring.
         """
         G = self.__class__()
+        # a subclass constructor may create default edge types: keep only those of this graph
+        G.clear_edge_types()
         G.graph.update(self.graph)
 
         # add all internal graphs to the copy
@@ -900,6 +902,8 @@ class MixedEdgeGraph:
         # initialize list of empty internal graphs
         graph_classes = [self._internal_graph_nx_type(edge_type)() for edge_type in self.edge_types]
         graph = self.__class__(**self.graph).copy()
+        # a subclass constructor may create default edge types: keep only those of this graph
+        graph.clear_edge_types()
         for edge_type, _graph in zip(self.edge_types, graph_classes):
             if edge_type not in graph.edge_types:
                 graph.add_edge_type(_graph, edge_type)
